@@ -220,6 +220,84 @@ def file_open(e, c, a):
     return ok(FileObj(FileDesc(fs.files[p], fs, False)))
 
 
+@model(r"^(std::path::)?Path::(file_stem|extension|file_name)$|^PathBuf::(file_stem|extension|file_name)$")
+def path_components(e, c, a):
+    """std::path semantics on byte strings: file name = text after the last '/', stem/extension split at the LAST '.', a leading '.' is
+    part of the stem, '..' has neither."""
+    m = c.rsplit("::", 1)[1]
+    sl = e.as_slice(a[0]); l, lo, hi = e.seq_of(sl)
+    start = lo
+    for k in range(hi - 1, lo - 1, -1):
+        if e.branch(e.binop("Eq", l[k], Int(8, 0, ord("/")))):
+            start = k + 1; break
+    if start >= hi:
+        return none()
+    if m == "file_name":
+        return some(Slice(sl.cell, sl.path, start, hi))
+    if hi - start == 2 and e.branch(b_and(e.binop("Eq", l[start], Int(8, 0, 46)), e.binop("Eq", l[start + 1], Int(8, 0, 46)))):
+        return none() if m == "extension" else some(Slice(sl.cell, sl.path, start, hi))
+    dot = None
+    for k in range(hi - 1, start, -1):          # a dot at `start` does not count
+        if e.branch(e.binop("Eq", l[k], Int(8, 0, 46))):
+            dot = k; break
+    if m == "file_stem":
+        return some(Slice(sl.cell, sl.path, start, hi if dot is None else dot))
+    return none() if dot is None else some(Slice(sl.cell, sl.path, dot + 1, hi))
+
+
+@model(r"^(flate2::read::)?MultiGzDecoder::<.*>::new$|^(flate2::read::)?GzDecoder::<.*>::new$")
+def gz_decoder_identity(e, c, a):
+    e.notes["gzip"] = "the gzip container is modelled as the identity (the file model holds the decompressed text)"
+    return a[0]
+
+
+class OpenOptionsObj:
+    def __init__(self):
+        self.o = {"read": False, "write": False, "append": False, "truncate": False, "create": False, "create_new": False}
+        self.variant = None
+
+
+@model(r"^(std::fs::)?OpenOptions::new$|^(std::fs::)?File::options$")
+def openoptions_new(e, c, a):
+    return OpenOptionsObj()
+
+
+@model(r"^(std::fs::)?OpenOptions::(read|write|append|truncate|create|create_new)$")
+def openoptions_set(e, c, a):
+    oo = deref_all(e, a[0])
+    v = a[1]
+    if not isinstance(v, bool):
+        raise Unsupported("symbolic OpenOptions flag")
+    oo.o[c.rsplit("::", 1)[1]] = v
+    return a[0]
+
+
+@model(r"^(std::fs::)?OpenOptions::open::<")
+def openoptions_open(e, c, a):
+    """open(2) semantics of std::fs::OpenOptions on the file-system model: create / create_new / truncate / append."""
+    oo = deref_all(e, a[0]).o
+    fs = _fs(e); p = _path_bytes(e, a[1])
+    writable = oo["write"] or oo["append"]
+    if (oo["create"] or oo["create_new"] or oo["truncate"]) and not writable:
+        return err(io_err("EINVAL"))
+    exists = p in fs.files
+    if oo["create_new"] and exists:
+        return err(io_err("EEXIST"))
+    if not exists:
+        if not (oo["create"] or oo["create_new"]):
+            return err(io_err("ENOENT"))
+        if getattr(fs, "create_fails", False):
+            return err(io_err("EACCES"))
+        fs.files[p] = FileData(); fs.log.append(("create", p))
+    fd = fs.files[p]
+    if oo["truncate"]:
+        del fd.data[:]
+    desc = FileDesc(fd, fs, writable)
+    if oo["append"]:
+        desc.pos = len(fd.data)
+    return ok(FileObj(desc))
+
+
 @model(r"^File::try_clone$|^std::fs::File::try_clone$")
 def file_try_clone(e, c, a):
     return ok(FileObj(deref_all(e, a[0]).desc))
